@@ -226,6 +226,7 @@ func runC18(c *Ctx) {
 	}
 
 	runC18JoinGuards(c)
+	runC18PlayerCount(c)
 	runSentinels(c, "sentinels")
 }
 
@@ -1017,4 +1018,146 @@ func findSentinelsOf(p *Prog, fn *ssa.Function) []sentinelRes {
 		}
 	}
 	return out
+}
+
+// runC18PlayerCount: the number of seated players is the number of seats that hold a player: one
+// pass over every seat of the table that counts a seat exactly when its Player is set. (A count
+// derived from another list - total minus available, say - also counts seats that are reserved
+// but empty.) Decides the shape of the counter, not joins minus leaves over histories.
+func runC18PlayerCount(c *Ctx) {
+	p := c.P
+	ix := p.Index()
+	const rule = "player-count"
+	g := p.Func(smPkg, "SeatManager", "GetPlayerCount")
+	if g == nil {
+		c.undecided(rule, "GetPlayerCount", "-", "not found")
+		return
+	}
+	// the function that holds the counting loop: the getter or a package function it returns
+	var fn *ssa.Function
+	cands := []*ssa.Function{g}
+	for _, cc := range ix.Info[g].Calls {
+		if f := cc.StaticCallee(); f != nil && f.Pkg == g.Pkg {
+			cands = append(cands, f)
+			if ix.Info[f] != nil {
+				for _, c2 := range ix.Info[f].Calls {
+					if f2 := c2.StaticCallee(); f2 != nil && f2.Pkg == g.Pkg {
+						cands = append(cands, f2)
+					}
+				}
+			}
+		}
+	}
+	nLoops := 0
+	for _, f := range cands {
+		if n := len(findLoops(f)); n > 0 && isIntType(f.Signature.Results().At(0).Type()) {
+			nLoops += n
+			if fn == nil {
+				fn = f
+			}
+		}
+	}
+	if fn == nil || nLoops != 1 {
+		// no pass over the seats at all: the count is derived from something else
+		if nLoops == 0 {
+			c.undecided(rule, fnKey(g), p.FnPos(g), "the number of players is not counted by a pass over the seats; whether a derived count (total minus available, a running counter) equals the occupied seats is not decided by this rule")
+		} else {
+			c.undecided(rule, fnKey(g), p.FnPos(g), fmt.Sprintf("%d loops behind the getter; expected one counting pass", nLoops))
+		}
+		return
+	}
+	c.touch(fnKey(fn))
+	s := newSumm(p, 0)
+	s.EngineAliases = false
+	s.HelperInline = purePredicate(p, fn)
+	l := s.loops(fn)[0]
+	// the returned value is a counter of the loop that starts at 0
+	var counter *ssa.Phi
+	for _, b := range fn.Blocks {
+		if r, ok := b.Instrs[len(b.Instrs)-1].(*ssa.Return); ok && len(r.Results) == 1 {
+			if ph, ok := r.Results[0].(*ssa.Phi); ok && ph.Block() == l.Header {
+				counter = ph
+			}
+		}
+	}
+	if counter == nil {
+		c.undecided(rule, fnKey(fn), p.FnPos(fn), "the result is not a counter of the loop")
+		return
+	}
+	var bad []string
+	if init, _ := phiInitStep(l, counter); init == nil {
+		bad = append(bad, "counter without a start value")
+	} else if k, ok := constInt(init); !ok || k != 0 {
+		bad = append(bad, "the count does not start at 0")
+	}
+	// every seat is visited: a full range over the seats, or an index from 0 below max
+	ri := analyseRange(l)
+	full := ri.Full && loadsField(ri.Coll, "seat_manager.SeatManager.seats")
+	body, cut := s.LoopBody(fn, l)
+	if cut != "" {
+		c.undecided(rule, fnKey(fn), p.FnPos(fn), "loop body summary cut: "+cut)
+		return
+	}
+	iter := "iter:" + fn.Name() + "." + counter.Name()
+	for _, bp := range body {
+		if bp.End != "continue" {
+			bad = append(bad, "the pass over the seats can stop early")
+			continue
+		}
+		back := bp.Store["backedge:"+counter.Name()]
+		if back == nil {
+			bad = append(bad, "no next value for the counter")
+			continue
+		}
+		d := back.asAff().add(affTerm(iter), -1)
+		if !d.isConst() || (d.C != 0 && d.C != 1) {
+			bad = append(bad, "the counter moves by "+d.String())
+			continue
+		}
+		occupied, decided, other := false, false, ""
+		for _, cd := range bp.Conds {
+			if a, isLt := ltForm(cd.V); isLt {
+				// the loop's own bound: index below max
+				bound := false
+				for t := range a.T {
+					if strings.HasSuffix(t, ".max") || strings.HasPrefix(t, "len(") {
+						bound = true
+					}
+				}
+				if bound {
+					if !full {
+						for t := range a.T {
+							if strings.HasSuffix(t, ".max") {
+								full = true
+							}
+						}
+					}
+					continue
+				}
+			}
+			if cd.V.K == KAtom && cd.V.At.Op == "is" && strings.HasSuffix(strings.TrimSuffix(cd.V.At.L, " "), ".Player") && cd.V.At.R == "nil" || cd.V.K == KAtom && cd.V.At.Op == "is" && cd.V.At.L == "nil" && strings.HasSuffix(cd.V.At.R, ".Player") {
+				decided = true
+				occupied = cd.V.Neg
+				continue
+			}
+			other = cd.V.String()
+		}
+		if other != "" {
+			bad = append(bad, "whether a seat counts depends on "+other+", not only on whether it holds a player")
+			continue
+		}
+		if !decided {
+			if d.C == 1 {
+				bad = append(bad, "a seat is counted without testing that it holds a player")
+			}
+			continue
+		}
+		if occupied != (d.C == 1) {
+			bad = append(bad, "an occupied seat is skipped or an empty one is counted")
+		}
+	}
+	if !full {
+		bad = append(bad, "the pass does not cover every seat of the table")
+	}
+	c.check(len(bad) == 0, rule, fnKey(fn), p.FnPos(fn), "the number of players is counted by one pass over every seat, a seat counting exactly when it holds a player", "the reported number of players is not the number of occupied seats", uniq(bad, 3)...)
 }
